@@ -473,15 +473,16 @@ func EMod(a, b *Term) *Term {
 
 func Abs(a *Term) *Term { return Ite(Ge(a, IntLit(0)), a, Neg(a)) }
 
-// TDiv: truncated division (Go / big.Int.Quo semantics), b != 0 assumed.
+// TDiv: truncated division (Go / big.Int.Quo semantics), b != 0 assumed. Emitted as a defined SMT function
+// so that terms stay small.
 func TDiv(a, b *Term) *Term {
 	if a.kind == tIntLit && b.kind == tIntLit && b.Lit.Sign() != 0 {
 		return BigLit(new(big.Int).Quo(a.Lit, b.Lit))
 	}
-	// sign(a)*sign(b) * (|a| div |b|)
-	q := EDiv(Abs(a), Abs(b))
-	neg := App("xor", SBool, Lt(a, IntLit(0)), Lt(b, IntLit(0)))
-	return Ite(neg, Neg(q), q)
+	if b.kind == tIntLit && b.Lit.Sign() > 0 && a.kind == tIntLit {
+		return BigLit(new(big.Int).Quo(a.Lit, b.Lit))
+	}
+	return App("tdiv", SInt, a, b)
 }
 
 // TRem: truncated remainder (Go % / big.Int.Rem)
@@ -491,6 +492,11 @@ func TRem(a, b *Term) *Term {
 	}
 	return Sub(a, Mul(b, TDiv(a, b)))
 }
+
+const tdivDef = "(define-fun tdiv ((a Int) (b Int)) Int (ite (>= a 0) (ite (> b 0) (div a b) (- (div a (- b)))) (ite (> b 0) (- (div (- a) b)) (div (- a) (- b)))))\n"
+
+// with quantifiers in the VC: an uninterpreted symbol with a triggered definitional axiom (keeps congruence cheap)
+const tdivAxiom = "(declare-fun tdiv (Int Int) Int)\n(assert (forall ((a Int) (b Int)) (! (= (tdiv a b) (ite (>= a 0) (ite (> b 0) (div a b) (- (div a (- b)))) (ite (> b 0) (- (div (- a) b)) (div (- a) (- b))))) :pattern ((tdiv a b)))))\n"
 
 func Select(arr, idx *Term) *Term {
 	if arr.Sort.Kind != KArray {
@@ -845,6 +851,16 @@ func (sc *Script) Render(logic string, produceModels bool) string {
 			sb.WriteString(a.String())
 		}
 		sb.WriteString(") " + d.Res.String() + ")\n")
+	}
+	for _, t := range order {
+		if t.kind == tApp && t.Op == "tdiv" {
+			if len(bound) > 0 {
+				sb.WriteString(tdivAxiom)
+			} else {
+				sb.WriteString(tdivDef)
+			}
+			break
+		}
 	}
 	// shared subterms -> define-fun
 	names := map[*Term]string{}
